@@ -1,3 +1,4 @@
-/- C14 — property theorems only (helper lemmas live in `Rooc/Proofs`). -/
+/- C14 — property theorems (work in progress). -/
+import Rooc.Proofs.Field
 namespace Rooc.Props.C14
 end Rooc.Props.C14
